@@ -35,12 +35,20 @@ def build(net, names=None):
         ins = [W(i) for i in lf['ins']]
         outs = [W(i) for i in lf['outs']]
         p = lf.get('p', [])
-        if k in ('And2', 'Or2'):
+        if k in ('And2', 'Or2', 'Sub', 'Mul', 'SignedMul', 'Div', 'Mod'):
             o = getattr(py4hw, k)(hw, nm, ins[0], ins[1], outs[0])
-        elif k in ('Not', 'Buf'):
+        elif k in ('Not', 'Buf', 'ZeroExtend', 'SignExtend', 'Repeat'):
             o = getattr(py4hw, k)(hw, nm, ins[0], outs[0])
-        elif k == 'BitsLSBF':
-            o = py4hw.BitsLSBF(hw, nm, ins[0], outs)
+        elif k in ('BitsLSBF', 'BitsMSBF'):
+            o = getattr(py4hw, k)(hw, nm, ins[0], outs)
+        elif k == 'Bit':
+            o = py4hw.Bit(hw, nm, ins[0], p[0], outs[0])
+        elif k == 'Range':
+            o = py4hw.Range(hw, nm, ins[0], p[0], p[1], outs[0])
+        elif k in ('ConcatenateMSBF', 'ConcatenateLSBF'):
+            o = getattr(py4hw, k)(hw, nm, ins, outs[0])
+        elif k in ('ShiftLeftConstant', 'ShiftRightConstant', 'RotateLeftConstant', 'RotateRightConstant'):
+            o = getattr(py4hw, k)(hw, nm, ins[0], p[0], outs[0])
         elif k == 'Constant':
             o = py4hw.Constant(hw, nm, p[0], outs[0])
         elif k == 'Mux2':
@@ -56,8 +64,6 @@ def build(net, names=None):
             o = py4hw.Sequence(hw, nm, list(p[1:]), outs[0], once=bool(p[0]))
         elif k == 'AddCarryIn':
             o = py4hw.AddCarryIn(hw, nm, ins[0], ins[1], outs[0], ins[2])
-        elif k == 'Sub':
-            o = py4hw.Sub(hw, nm, ins[0], ins[1], outs[0])
         else:
             raise Unsupported('build: kind ' + k)
         d = lf.get('dom', 0)
